@@ -210,6 +210,8 @@ class StmtMixin:
 
     def store(self, st: State, tgt, v, value_node=None) -> State:
         if isinstance(tgt, ast.Name):
+            if isinstance(v, V) and tgt.id in getattr(self, "cur_locals", {}) and len(st.frames) == 1:
+                v = coerce(v, self.ct.parse(self.cur_locals[tgt.id]))     # declared type of an unannotated local
             if isinstance(v, Bag):
                 st, v = self.bag_to_seq(st, v)
             if isinstance(v, V) and isinstance(v.t, (TSet, TMap, TSeq)) and value_node is not None:
